@@ -37,6 +37,25 @@ def insertSortedDedup (n : Name) : List Name → List Name
   | [] => [n]
   | m :: rest => if n = m then m :: rest else if nameLt n m then n :: m :: rest else m :: insertSortedDedup n rest
 
+/-- Cross-check of the two layers of the model: on every pattern of the specification's fragment and every walked
+    name, the string-level matcher (`ReplaceAll` chain + parsers) and the parsed-pattern matcher the theorems are about
+    (`structMatch`) must agree -- also for the file-name-only reading of relative excludes. -/
+def selfCheck (comps : List Name) (w : Walked) (pats : List Name) : Bool :=
+  let rootName := nameOf comps
+  let names := w.files ++ w.symlinks
+  pats.all fun p =>
+    match parseSegs p with
+    | none => true
+    | some segs =>
+      -- `(`, `)`, `|` in a `**` pattern (or its package path) are regexp syntax to the code and literals to `structMatch`
+      let safe (r : List Name) := !hasDstar segs || (safePath false r && (p.all reSafe))
+      (!safe comps || match patternToMatcher facts rootName p with
+       | none => true       -- compile error: nothing to compare
+       | some mt => names.all fun m => mt.run m == structMatch comps segs m) &&
+      (!safe [] || match patternToMatcher facts [] p with
+       | none => true
+       | some mt => names.all fun m => mt.run (base m) == structMatch [] segs (base m))
+
 def step (line : String) : String :=
   match line.splitOn " " with
   | ["glob", root, bn, inc, exc, hid, sym, tree] =>
@@ -53,7 +72,7 @@ def step (line : String) : String :=
         | some (.leaf _) => "root-not-dir"
         | some t =>
           if !(forestNamesOK f && bn.all plainName && (inc ++ exc).all modelledPattern) then "unmodelled" else
-          if (inc ++ exc).any (·.isEmpty) then "error" else     -- mustBeValidGlobString
+          if !selfCheck comps (walkDir facts ⟨bn⟩ comps t) (inc ++ exc ++ bn) then "SELF-CHECK-FAILED" else
           match globAll facts ⟨bn⟩ comps t inc (exc ++ bn) (hid = "1") (sym = "1") with
           | none => "error"
           | some l => showNames (l.foldr insertSortedDedup [])
